@@ -1010,6 +1010,9 @@ func trieCaseOn(c *core.Ctx, r *rand.Rand, b trie.Builder, keys [][]byte, vals [
 	s2.dumpVectors(nil)
 	s2.navOps(r, 3)
 	s2.queries(r, probes)
+	// damaged images of this trie, and a pooled trie object with a history (wire.go)
+	s2.damaged(r, buf.Bytes(), t2, s2.full)
+	s2.pooled(r, buf.Bytes(), t2, probes, s2.full)
 }
 
 // ---------------------------------------------------------------- bit vector cases
